@@ -266,6 +266,11 @@ func genCases(seed uint64, n int, throws bool, w *bufio.Writer) {
 			sort.Slice(rules, func(a, b int) bool { return rules[a].name < rules[b].name })
 			nr = len(rules)
 		}
+		if r.IntN(2) == 0 {
+			// the order in which the rules are DEFINED is not the order of their names: the analysis visits the rules in
+			// sorted name order whatever the order of definition (round 21: ComputeNullables in definition order)
+			r.Shuffle(len(rules), func(a, b int) { rules[a], rules[b] = rules[b], rules[a] })
+		}
 		var gs strings.Builder
 		gs.WriteString(strconv.Itoa(nr))
 		for _, ru := range rules {
